@@ -79,8 +79,7 @@ class Module:
         with open(path, encoding="utf-8") as fh:
             self.source = fh.read()
         self.tree = ast.parse(self.source, filename=path)
-        from .normal import normalise
-        self.normal_stats = normalise(self.tree)      # rules see the normal form (sa/normal.py), never the raw spelling
+        self.normal_stats = {}
         self.classes: dict[str, ClassInfo] = {}
         self.functions: dict[str, FuncInfo] = {}
         self.assigns: dict[str, ast.AST] = {}  # last top-level assignment value
@@ -108,6 +107,30 @@ class Index:
         self.modules: dict[str, Module] = {}
         self._mro_cache: dict = {}
         self._load()
+        self.inlined_helpers: list = []
+        from .normal import inline_single_callers, normalise, rule_vocabulary
+        if os.environ.get("VERIF_N5", "1") == "1":
+            # N5 first (on the raw trees), then N1-N4: rules see the normal form (sa/normal.py), never the raw spelling
+            try:
+                self.inlined_helpers = inline_single_callers(self.modules, max_sites=int(os.environ.get("VERIF_N5_SITES", "6")), known=rule_vocabulary())
+            except Exception:       # look-through is an optimisation of the view, never a reason to fail: fall back to the raw trees
+                self.inlined_helpers = []
+                for m in self.modules.values():
+                    m.tree = ast.parse(m.source, filename=m.path)
+            touched = {h[1].split("::")[0] for h in self.inlined_helpers}
+            for mn in touched:
+                m = self.modules[mn]
+                try:
+                    ast.fix_missing_locations(m.tree)
+                    compile(ast.unparse(m.tree), m.path, "exec")
+                except Exception:
+                    m.tree = ast.parse(m.source, filename=m.path)
+                    self.inlined_helpers = [h for h in self.inlined_helpers if h[1].split("::")[0] != mn]
+        for m in self.modules.values():
+            m.normal_stats = normalise(m.tree)
+            for node in ast.walk(m.tree):
+                for child in ast.iter_child_nodes(node):
+                    child._parent = node  # type: ignore[attr-defined]
         for m in self.modules.values():
             self._scan_module(m)
 
